@@ -392,6 +392,8 @@ class TokenAwarePolicy(LoadBalancingPolicy):
             else:
                 replicas = self._cluster_metadata.get_replicas(keyspace, routing_key)
                 if self.shuffle_replicas:
+                    # shuffle a copy: the list belongs to the token map and other plans may be iterating it
+                    replicas = list(replicas)
                     shuffle(replicas)
                 yielded = []
                 for replica in replicas:
